@@ -62,6 +62,8 @@ def type_of(v):
         return 'bool'
     if k in ('map', 'big_map'):
         return (k, v[1])
+    if k == 'lam':
+        return ('lambda', v[1], v[2])
     raise lib.InternalError(f'bad value {v!r}')
 
 
@@ -80,8 +82,35 @@ def is_content(v):
     return v[0] in ('nat', 'str', 'none', 'some', 'pair') and is_content_ty(type_of(v))
 
 
+def pushable(t):
+    if isinstance(t, str) or t[0] == 'lambda':
+        return True
+    if t[0] in ('ticket', 'big_map'):
+        return False
+    return all(pushable(x) for x in t[1:])
+
+
+def has_lam(v):
+    if not isinstance(v, tuple):
+        return False
+    if v and v[0] == 'lam':
+        return True
+    return any(has_lam(x) if isinstance(x, tuple) else (isinstance(x, list) and any(has_lam(y) for y in x)) for x in v[1:])
+
+
+def strip_lam(v):
+    """closures are opaque on the pytezos side: compare them only as 'a closure'"""
+    if isinstance(v, tuple):
+        if v and v[0] == 'lam':
+            return ('lam',)
+        return tuple(strip_lam(x) for x in v)
+    if isinstance(v, list):
+        return [strip_lam(x) for x in v]
+    return v
+
+
 def duplicable(t):
-    if isinstance(t, str):
+    if isinstance(t, str) or t[0] == 'lambda':
         return True
     if t[0] == 'ticket':
         return False
@@ -252,6 +281,46 @@ class RefMachine:
             for x in items:
                 self.stack.insert(0, x)
                 self.run(i[1])
+        elif op == 'LAMBDA':
+            s.insert(0, ('lam', i[1], i[2], (), tuple(i[3])))
+        elif op == 'APPLY':
+            x, lam = self.pop(2)
+            if lam[0] != 'lam' or not (isinstance(lam[1], tuple) and lam[1][0] == 'pair') or lam[1][1] != type_of(x):
+                raise Stuck('APPLY operands')
+            self.stack.insert(0, ('lam', lam[1][2], lam[2], lam[3] + (x,), lam[4]))
+        elif op == 'EXEC':
+            x, lam = self.pop(2)
+            if lam[0] != 'lam' or lam[1] != type_of(x):
+                raise Stuck('EXEC operands')
+            if not all(pushable(type_of(c)) for c in lam[3]):
+                raise Stuck('captured value is not pushable')
+            arg = x
+            for c in reversed(lam[3]):
+                arg = ('pair', c, arg)
+            outer = self.stack
+            self.stack = [arg]
+            try:
+                self.run(list(lam[4]))
+                inner = self.stack
+            finally:
+                self.stack = outer
+            if len(inner) != 1 or type_of(inner[0]) != lam[2]:
+                raise Stuck('lambda result')
+            self.stack.insert(0, inner[0])
+        elif op == 'LOOP':
+            n = 0
+            while True:
+                (c,) = self.pop(1)
+                if c[0] != 'bool':
+                    raise Stuck('LOOP condition')
+                if not c[1]:
+                    break
+                n += 1
+                if n > 50:
+                    raise Outside()
+                self.run(i[1])
+        elif op == 'PUSH_BOOL':
+            s.insert(0, ('bool', i[1]))
         elif op == 'EMPTY_MAP':
             s.insert(0, ('big_map' if i[1] else 'map', i[2], []))
         elif op in ('UPDATE', 'GET_AND_UPDATE'):
@@ -338,6 +407,12 @@ def instr_text(i):
         return f'{op} {ty_text(i[1])}'
     if op in ('IF_NONE', 'IF_CONS'):
         return f'{op} {{ {prog_text(i[1])} }} {{ {prog_text(i[2])} }}'
+    if op == 'LAMBDA':
+        return f'LAMBDA {ty_text(i[1])} {ty_text(i[2])} {{ {prog_text(i[3])} }}'
+    if op == 'LOOP':
+        return f'LOOP {{ {prog_text(i[1])} }}'
+    if op == 'PUSH_BOOL':
+        return f'PUSH bool {"True" if i[1] else "False"}'
     if op == 'EMPTY_MAP':
         return f'{"EMPTY_BIG_MAP" if i[1] else "EMPTY_MAP"} nat {ty_text(i[2])}'
     if op in ('ITER', 'MAP'):
@@ -379,6 +454,8 @@ def coq_ty(t):
         return {'nat': 'TNat', 'string': 'TString', 'address': 'TAddress', 'bool': 'TBool'}[t]
     if t[0] in ('map', 'big_map'):
         return f'(TMap {"true" if t[0] == "big_map" else "false"} {coq_ty(t[1])})'
+    if t[0] == 'lambda':
+        return f'(TLambda {coq_ty(t[1])} {coq_ty(t[2])})'
     if t[0] == 'ticket':
         return f'(TTicket {coq_cty(t[1])})'
     if t[0] == 'pair':
@@ -438,6 +515,12 @@ def coq_instr(i):
         return f'({op} {coq_ty(i[1])})'
     if op in ('IF_NONE', 'IF_CONS'):
         return f'({op} {coq_prog(i[1])} {coq_prog(i[2])})'
+    if op == 'LAMBDA':
+        return f'(LAMBDA {coq_ty(i[1])} {coq_ty(i[2])} {coq_prog(i[3])})'
+    if op == 'LOOP':
+        return f'(LOOP {coq_prog(i[1])})'
+    if op == 'PUSH_BOOL':
+        return f'(PUSH_BOOL {"true" if i[1] else "false"})'
     if op == 'EMPTY_MAP':
         return f'(EMPTY_MAP {"true" if i[1] else "false"} {coq_ty(i[2])})'
     if op in ('ITER', 'MAP'):
@@ -486,6 +569,8 @@ def canon_ty(e):
         return (p, canon_ty(e['args'][0]))
     if p == 'bool':
         return 'bool'
+    if p == 'lambda':
+        return ('lambda', canon_ty(e['args'][0]), canon_ty(e['args'][1]))
     if p in ('map', 'big_map') and e['args'][0]['prim'] == 'nat':
         return (p, canon_ty(e['args'][1]))
     raise ValueError(f'type outside the modelled domain: {p}')
@@ -508,6 +593,8 @@ def canon_item(x):
         return (t[0], t[1], ents)
     if x.prim == 'bool':
         return ('bool', bool(x))
+    if x.prim == 'lambda':
+        return ('lam',)
     if isinstance(x, T.ListType):
         return ('list', canon_ty(type(x).as_micheline_expr()['args'][0]), [canon_item(y) for y in x.items])
     if x.prim == 'address':
@@ -592,6 +679,9 @@ def random_instr(rng, depth=0):
         return ('PUSH_NAT', rng.choice(AMOUNTS))
     if k == 19:
         return ('PUSH_STR', rng.choice(STRS))
+    if k == 23 and rng.random() < 0.4:
+        return rng.choice([('EXEC',), ('APPLY',), ('PUSH_BOOL', rng.random() < 0.5), ('LAMBDA', ('ticket', 'nat'), ('ticket', 'nat'), []),
+                           ('LAMBDA', ('pair', 'nat', 'nat'), 'nat', [('CAR',)])])
     if k == 23:
         return rng.choice([('UPDATE',), ('GET_AND_UPDATE',), ('MEM',), ('GET',), ('EMPTY_MAP', rng.random() < 0.5, rng.choice(SMALL_TYS[:6]))])
     if k == 22 and depth < 2:
@@ -879,6 +969,38 @@ def split_join_unit_cases(rng, addrs):
         out.append((a0, split + [('NIL', ('ticket', 'string')), ('SWAP',), ('CONS',), ('SWAP',)] + mint(A, 3) + [('SWAP',), ('PAIR',), ('JOIN_TICKETS',), some([])]))
         out.append((a0, split + [('SWAP',), ('SOME',), ('SWAP',)] + mint(A, 3) + [('SWAP',), ('PAIR',), ('JOIN_TICKETS',), some([]), ('SWAP',),
                                  ('IF_NONE', [], [('READ_TICKET',)])]))
+    # closures: LAMBDA / APPLY / EXEC with tickets captured (must never come out) or passed (fine), DUP of closures, LOOP
+    TNt = ('ticket', 'nat')
+    shapes = [(TNt, [], []),
+              (('pair', TNt, 'nat'), [('PUSH_NAT', 7), ('SWAP',), ('PAIR',)], [('CAR',)]),
+              (('option', TNt), [('SOME',)], [('IF_NONE', [('PUSH_NAT', 99)], [])]),
+              (('list', TNt), [('NIL', TNt), ('SWAP',), ('CONS',)], [('IF_CONS', [('SWAP',), ('DROP',)], [('PUSH_NAT', 99)])])]
+    ex = [('PUSH_NAT', 0), ('EXEC',)]
+    for ty, wrap, unwrap in shapes:
+        clo = tk(5) + wrap + [('LAMBDA', ('pair', ty, 'nat'), TNt, [('CAR',)] + unwrap), ('SWAP',), ('APPLY',)]
+        out.append((a0, clo))
+        out.append((a0, clo + [('DUP',)]))
+        out.append((a0, clo + ex))
+        out.append((a0, clo + [('DUP',)] + ex + [('SWAP',)] + ex + [('PAIR',), ('JOIN_TICKETS',)]))
+        out.append((a0, [('LAMBDA', ty, TNt, unwrap)] + tk(5) + wrap + [('EXEC',)]))
+        out.append((a0, [('LAMBDA', ty, TNt, unwrap), ('DUP',)] + tk(5) + wrap + [('EXEC',), ('SWAP',), ('DROP',)]))
+    out.append((a0, [('LAMBDA', TNt, ('pair', TNt, TNt), [('DUP',), ('PAIR',)])] + tk(5) + [('EXEC',)]))
+    out.append((a0, [('LAMBDA', ('pair', TNt, TNt), ('option', TNt), [('JOIN_TICKETS',)])] + tk(5) + tk(3) + [('PAIR',), ('EXEC',)]))
+    out.append((a0, [('LAMBDA', ('pair', TNt, ('pair', 'nat', 'nat')), ('option', ('pair', TNt, TNt)), [('UNPAIR',), ('SPLIT_TICKET',)]),
+                     ('PUSH_NAT', 2), ('PUSH_NAT', 3), ('PAIR',)] + tk(5) + [('PAIR',), ('EXEC',)]))
+    out.append((a0, [('LAMBDA', ('pair', 'nat', 'nat'), 'nat', [('CAR',)]), ('PUSH_NAT', 7), ('APPLY',), ('DUP',), ('PUSH_NAT', 1), ('EXEC',), ('SWAP',), ('PUSH_NAT', 2), ('EXEC',)]))
+    out.append((a0, [('LAMBDA', ('pair', 'nat', ('pair', 'string', 'nat')), 'string', [('CDR',), ('CAR',)]), ('PUSH_NAT', 7), ('APPLY',), ('PUSH_STR', 'ab'), ('APPLY',), ('PUSH_NAT', 1), ('EXEC',)]))
+    out.append((a0, [('LAMBDA', 'nat', ('option', TNt), [('PUSH_NAT', 42), ('TICKET',)]), ('DUP',), ('PUSH_NAT', 4), ('EXEC',), ('SWAP',), ('PUSH_NAT', 6), ('EXEC',)]))
+    out.append((a0, [('LAMBDA', 'nat', 'nat', []), ('PUSH_STR', 'a'), ('EXEC',)]))
+    out.append((a0, [('LAMBDA', 'nat', 'string', []), ('PUSH_NAT', 1), ('EXEC',)]))
+    out.append((a0, [('LAMBDA', 'nat', 'nat', [('PUSH_NAT', 1)]), ('PUSH_NAT', 1), ('EXEC',)]))
+    out.append((a0, [('LAMBDA', 'nat', 'nat', []), ('PUSH_NAT', 1), ('APPLY',)]))
+    out.append((a0, tk(5) + [('PUSH_BOOL', True), ('LOOP', [('READ_TICKET',), ('DROP',), ('PUSH_BOOL', False)])]))
+    out.append((a0, tk(5) + [('PUSH_BOOL', True), ('LOOP', [('DUP',), ('PUSH_BOOL', False)])]))
+    out.append((a0, [('PUSH_BOOL', False), ('LOOP', [('DUP',)])] + tk(2)))
+    out.append((a0, [('EMPTY_MAP', False, TNt)] + tk(5) + [('SOME',), ('PUSH_NAT', 0), ('UPDATE',), ('PUSH_BOOL', True),
+                     ('LOOP', [('NONE', TNt), ('PUSH_NAT', 0), ('GET_AND_UPDATE',), ('IF_NONE', [('PUSH_BOOL', False)], [('DROP',), ('PUSH_BOOL', True)])])]))
+    out.append((a0, [('PUSH_NAT', 1), ('LOOP', [])]))
     # maps and big_maps holding tickets (the shapes of defect #50 and of the oracle-only stream, now inside the model)
     TN = ('ticket', 'nat')
     take = lambda k: [('NONE', TN), ('PUSH_NAT', k), ('GET_AND_UPDATE',)]  # noqa: E731
@@ -929,7 +1051,7 @@ def oracle(addr, prog, obs):
             for k, a in mass.items():
                 if a > m.minted.get(k, 0):
                     return f'total amount {a} of tickets {k} exceeds what TICKET created ({m.minted.get(k, 0)})'
-    if obs != want:
+    if strip_lam(obs) != strip_lam(want):
         if want[0] == 'fail':
             return 'the program must fail (an instruction is applied to operands it must refuse, e.g. DUP of a ticket) but it ran'
         if obs[0] == 'fail':
@@ -1139,7 +1261,9 @@ def has(prog, names):
             return True
         if i[0] in ('IF_NONE', 'IF_CONS') and (has(i[1], names) or has(i[2], names)):
             return True
-        if i[0] in ('ITER', 'MAP') and has(i[1], names):
+        if i[0] in ('ITER', 'MAP', 'LOOP') and has(i[1], names):
+            return True
+        if i[0] == 'LAMBDA' and has(i[3], names):
             return True
     return False
 
@@ -1195,7 +1319,7 @@ def run(ctx: lib.Ctx) -> None:
         nt = has(prog, ('SPLIT_TICKET', 'JOIN_TICKETS', 'READ_TICKET')) or (has(prog, ('TICKET',)) and has(prog, ('DUP', 'DUPN')))
         ctx.case((addr, repr(prog)), nontrivial=nt, kind=f'{kind}:{obs[0]}',
                  sample={'self': addr, 'program': prog_text([i for i in prog])[:400], 'result': to_json(obs)})
-        for name in ('TICKET', 'READ_TICKET', 'SPLIT_TICKET', 'JOIN_TICKETS', 'DUP', 'DUPN', 'IF_NONE', 'IF_CONS', 'CONS', 'ITER', 'MAP', 'SELF_IS', 'EMPTY_MAP', 'UPDATE', 'GET_AND_UPDATE', 'GET', 'MEM'):
+        for name in ('TICKET', 'READ_TICKET', 'SPLIT_TICKET', 'JOIN_TICKETS', 'DUP', 'DUPN', 'IF_NONE', 'IF_CONS', 'CONS', 'ITER', 'MAP', 'SELF_IS', 'EMPTY_MAP', 'UPDATE', 'GET_AND_UPDATE', 'GET', 'MEM', 'LAMBDA', 'APPLY', 'EXEC', 'LOOP'):
             if has(prog, (name,)):
                 ctx.dist['uses ' + name] += 1
         if ref_run(addr, prog)[1].lenient:
@@ -1205,6 +1329,8 @@ def run(ctx: lib.Ctx) -> None:
             continue
         if obs[0] == 'other':
             direct_bad.append((addr, prog, obs))
+        elif has_lam(obs):
+            ctx.dist['closure left on the final stack: oracle only, no model comparison'] += 1
         else:
             cases.append((f'({coq_bytes(addr)}, {coq_prog(prog)})', coq_obs(obs)))
             meta.append((addr, prog, obs))
